@@ -14,6 +14,7 @@ import (
 	"os"
 	"path/filepath"
 	"sort"
+	"strconv"
 	"strings"
 	"sync"
 	"sync/atomic"
@@ -51,6 +52,10 @@ type wreport struct {
 	X        float64
 	Programs []*wprog
 	Config   string
+	// alt: stored under another spelling of its X (an object written by another
+	// tool, or by a version that formatted X differently): a second stored report
+	// with the X, and so the ID, of an earlier one of the same day
+	alt bool
 }
 
 var c13Cfg = &verifref.UploadConfig{
@@ -244,12 +249,19 @@ func (e *wenv) close() { e.srv.Close(); os.RemoveAll(e.root) }
 
 func (e *wenv) store(rep *wreport) {
 	ctx := context.Background()
-	w, err := e.buckets.Upload.Object(fmt.Sprintf("%s/%g.json", rep.Week, rep.X)).NewWriter(ctx)
+	w, err := e.buckets.Upload.Object(rep.objName()).NewWriter(ctx)
 	if err != nil {
 		panic(err)
 	}
 	json.NewEncoder(w).Encode(rep)
 	w.Close()
+}
+
+func (rep *wreport) objName() string {
+	if rep.alt {
+		return rep.Week + "/" + strconv.FormatFloat(rep.X, 'e', -1, 64) + ".json"
+	}
+	return fmt.Sprintf("%s/%g.json", rep.Week, rep.X)
 }
 
 func dayStr(d int64) string { return verifref.DateString(d) }
@@ -335,7 +347,17 @@ func TestVerifC13(t *testing.T) {
 					}
 				}
 				if dup {
-					continue
+					// (one object per spelling of X; a second spelling is a second report
+					// with the same ID)
+					twice := false
+					for _, o := range byDay[ds] {
+						twice = twice || (o.X == rep.X && o.alt)
+					}
+					if twice || rnd.Intn(2) == 0 || fmt.Sprintf("%g", rep.X) == strconv.FormatFloat(rep.X, 'e', -1, 64) {
+						continue
+					}
+					rep.alt = true
+					res.Hit("same-id-twice-on-one-day")
 				}
 				xs = append(xs, rep.X)
 				all = append(all, rep)
@@ -532,7 +554,7 @@ func TestVerifC13(t *testing.T) {
 					victim := all[rnd.Intn(len(all))]
 					ds := victim.Week
 					repl := genWReport(rnd, ds, nil)
-					repl.X = victim.X
+					repl.X, repl.alt = victim.X, victim.alt
 					if rnd.Intn(3) > 0 {
 						repl.Programs = nil
 					}
@@ -590,7 +612,7 @@ func TestVerifC13(t *testing.T) {
 							keep = keep || o == r
 						}
 						if !keep {
-							os.Remove(filepath.Join(e.root, "uploaded", fmt.Sprintf("%s/%g.json", r.Week, r.X)))
+							os.Remove(filepath.Join(e.root, "uploaded", filepath.FromSlash(r.objName())))
 						}
 					}
 					e.store(victim)
@@ -615,7 +637,7 @@ func TestVerifC13(t *testing.T) {
 			res.Sample(map[string]any{"case": i, "days": ndays, "reports": len(all), "first_day": dayStr(day0)})
 		}
 	}
-	res.Require("concurrent-merge-requests", "merge-commit-fails", "chart-commit-fails", "stray-object-in-upload-bucket", "merge-under-descriptor-limit", "concurrent-chart-requests", "re-merge-after-replacement", "merged-line>64KiB", "duplicate-X", "missing-day", "sub-range", "semver-equal-versions")
+	res.Require("same-id-twice-on-one-day", "concurrent-merge-requests", "merge-commit-fails", "chart-commit-fails", "stray-object-in-upload-bucket", "merge-under-descriptor-limit", "concurrent-chart-requests", "re-merge-after-replacement", "merged-line>64KiB", "duplicate-X", "missing-day", "sub-range", "semver-equal-versions")
 	if err := res.Write(); err != nil {
 		t.Fatal(err)
 	}
